@@ -138,9 +138,11 @@ def ev(e, env, be):
     if op == "cb":
         return e[1]
     if op == "ca":
-        return xp.array(e[1], dtype=be.ftype)
+        a = xp.array(e[1], dtype=be.ftype)
+        return a.reshape(tuple(e[2])) if len(e) > 2 else a
     if op == "cbv":
-        return xp.array(e[1], dtype=bool)
+        a = xp.array(e[1], dtype=bool)
+        return a.reshape(tuple(e[2])) if len(e) > 2 else a
     if op == "none":
         return None
     if op in DOMS:
